@@ -249,7 +249,7 @@ func runC09(p *Prog, r *Report) {
 			for _, g := range e.Guard {
 				_ = g
 			}
-			if len(e.Guard) > 0 && strings.Contains(strings.Join(e.Guard, " "), "len(") && !strings.Contains(strings.Join(e.Guard, " "), "select#") {
+			if len(e.Guard) > 0 && strings.Contains(strings.Join(e.Guard, " "), "len(") && !strings.Contains(strings.Join(e.Guard, " "), "arm(") {
 				// candidates: after the length check, before the select
 				if drop == nil || e.In.Block().Index > drop.Index {
 					if hasAtom(e.Guard, "len(recv.p.RecvMsg().Body) >= 4") {
